@@ -44,6 +44,7 @@ func runC03(r *Report) {
 	c03R6(r)
 	c03R8(r)
 	c03R9(r)
+	c03R10(r)
 	_ = p
 }
 
@@ -775,4 +776,149 @@ func c03R9(r *Report) {
 				"a path through Torrent.Request with request == true returns successfully without Pieces.UpdateTime (the only writer of a piece's access time): a read served from the cache no longer counts as an access and the piece is evicted as if it had never been used again")
 		}
 	}
+}
+
+// ---------- R10: eviction targets are shares of the low-water mark ----------
+
+// c03R10: in tor.Expire every per-torrent threshold — a value a torrent's Bytes() is compared with, or the target handed
+// to Pieces.Expire — is a quotient whose numerator contains the configured low-water mark: the mark (less what the
+// small torrents keep) is divided among the torrents. A threshold of another shape (the mark itself minus a share:
+// `low - smallspace/bigcount`) lets the targets add up to more than the mark, so an eviction pass cannot bring the
+// total below it whenever several torrents are above their share.
+func c03R10(r *Report) {
+	p := r.P
+	exp := p.Func("tor", "Expire")
+	pexp := p.Func("tor/piece", "Pieces.Expire")
+	pbytes := p.Func("tor/piece", "Pieces.Bytes")
+	if !r.Anchor("R10", "tor.Expire", exp != nil) || !r.Anchor("R10", "piece.(*Pieces).Expire/Bytes", pexp != nil && pbytes != nil) {
+		return
+	}
+	fns := append([]*ssa.Function{exp}, exp.AnonFuncs...)
+	// resolve: a value as seen in tor.Expire (through conversions, captured single-assignment variables)
+	var resolve func(v ssa.Value, d int) ssa.Value
+	cellValue := func(al *ssa.Alloc) ssa.Value {
+		var val ssa.Value
+		n := 0
+		var visit func(x ssa.Value)
+		visit = func(x ssa.Value) {
+			for _, ref := range *x.Referrers() {
+				if st, ok := ref.(*ssa.Store); ok && st.Addr == x {
+					val = st.Val
+					n++
+				}
+			}
+		}
+		visit(al)
+		// stores through the closures that capture the cell
+		for _, ref := range *al.Referrers() {
+			mc, ok := ref.(*ssa.MakeClosure)
+			if !ok {
+				continue
+			}
+			fn := mc.Fn.(*ssa.Function)
+			for i, b := range mc.Bindings {
+				if b == ssa.Value(al) && i < len(fn.FreeVars) {
+					visit(fn.FreeVars[i])
+				}
+			}
+		}
+		if n == 1 {
+			return val
+		}
+		return nil
+	}
+	resolve = func(v ssa.Value, d int) ssa.Value {
+		if d > 8 || v == nil {
+			return v
+		}
+		v = stripIntConv(v)
+		ld, ok := v.(*ssa.UnOp)
+		if !ok || ld.Op != token.MUL {
+			return v
+		}
+		switch x := ld.X.(type) {
+		case *ssa.Alloc:
+			if val := cellValue(x); val != nil {
+				return resolve(val, d+1)
+			}
+		case *ssa.FreeVar:
+			fn := x.Parent()
+			for i, fv := range fn.FreeVars {
+				if fv != x {
+					continue
+				}
+				for _, ref := range *fn.Referrers() {
+					if mc, ok := ref.(*ssa.MakeClosure); ok && i < len(mc.Bindings) {
+						if al, ok := mc.Bindings[i].(*ssa.Alloc); ok {
+							if val := cellValue(al); val != nil {
+								return resolve(val, d+1)
+							}
+						}
+					}
+				}
+			}
+		}
+		return v
+	}
+	var mentionsLow func(v ssa.Value, d int) bool
+	mentionsLow = func(v ssa.Value, d int) bool {
+		if d > 8 || v == nil {
+			return false
+		}
+		v = resolve(v, 0)
+		switch x := v.(type) {
+		case *ssa.Call:
+			if o := calleeObj(x); o != nil && o.Name() == "MemoryLowMark" {
+				return true
+			}
+		case *ssa.BinOp:
+			if x.Op == token.ADD || x.Op == token.SUB {
+				return mentionsLow(x.X, d+1) || mentionsLow(x.Y, d+1)
+			}
+		case *ssa.Convert:
+			return mentionsLow(x.X, d+1)
+		}
+		return false
+	}
+	isBytes := func(v ssa.Value) bool {
+		c, ok := resolve(v, 0).(*ssa.Call)
+		return ok && c.Call.StaticCallee() == pbytes
+	}
+	n := 0
+	check := func(what string, x ssa.Value, pos token.Pos) {
+		n++
+		v := resolve(x, 0)
+		key := fmt.Sprintf("tor.Expire/%s(%s)-is-share-of-low-mark", what, exprStr(strip(x)))
+		bo, ok := v.(*ssa.BinOp)
+		okShape := ok && bo.Op == token.QUO && mentionsLow(bo.X, 0)
+		r.Check(okShape, "R10", key, pos, "the threshold is the low-water mark (less what is kept) divided by a number of torrents",
+			"a per-torrent eviction threshold in tor.Expire is not a quotient whose numerator contains the low-water mark ("+exprStr(v)+"): the targets of the torrents above their share can add up to more than the mark, so an eviction pass does not bring the total down to it when several torrents are large")
+	}
+	for _, f := range fns {
+		r.Fn(f)
+		allInstrs(f, func(in ssa.Instruction) {
+			switch x := in.(type) {
+			case *ssa.BinOp:
+				switch x.Op {
+				case token.LSS, token.LEQ, token.GTR, token.GEQ:
+				default:
+					return
+				}
+				if isBytes(x.X) && !isBytes(x.Y) {
+					check("threshold", x.Y, x.Pos())
+				} else if isBytes(x.Y) && !isBytes(x.X) {
+					check("threshold", x.X, x.Pos())
+				}
+			case *ssa.Go:
+				if x.Call.StaticCallee() == pexp && len(x.Call.Args) > 1 {
+					check("target", x.Call.Args[1], x.Pos())
+				}
+			case *ssa.Call:
+				if x.Call.StaticCallee() == pexp && len(x.Call.Args) > 1 {
+					check("target", x.Call.Args[1], x.Pos())
+				}
+			}
+		})
+	}
+	r.Sentinel("R10", n, 2)
 }
